@@ -471,7 +471,7 @@ pub fn run(tier: Tier, seed: u64) -> i32 {
     for (i, (n, corrupt, p_eval)) in cfgs.into_iter().enumerate() {
         let inputs = (0..n).map(|p| vec![(seed as usize + p + i) % 2 == 0]).collect();
         let base = MpcCase::simple(circ8(n), inputs, p_eval, (0..n).collect());
-        let all_idx = n == 2 && (tier == Tier::Thorough || i == (seed as usize) % 2);
+        let all_idx = tier == Tier::Thorough || (n == 2 && i == (seed as usize) % 2);
         match entries(&base, corrupt, all_idx, seed as usize + i) {
             Ok(e) => all.extend(e),
             Err(e) => {
@@ -507,7 +507,7 @@ pub fn run(tier: Tier, seed: u64) -> i32 {
     enumerate(&ctx, &all, |e| test_entry("C04", e));
     // (b)
     if !ctx.stopped() {
-        prop_search(&ctx, "hist", tier.pick(120, 1500), gen_hist, test_hist);
+        prop_search(&ctx, "hist", tier.pick(120, 6000), gen_hist, test_hist);
     }
     // (c)
     if !ctx.stopped() {
